@@ -306,7 +306,9 @@ class RandomEviction(CacheEvictionPolicy):
         """Return a random key."""
         if not self._keys:
             return None
-        key = self._rng.choice(list(self._keys))
+        # sorted(): the iteration order of a set of str depends on PYTHONHASHSEED,
+        # which made the victim differ from one interpreter to the next
+        key = self._rng.choice(sorted(self._keys))
         self._keys.discard(key)
         return key
 
